@@ -193,6 +193,9 @@ def main():
         if oi == "skipped-after-timeouts":
             continue
         if oi == "timeout" or oi.startswith("crash "):
+            if hasattr(gen, "abnormal_ok") and gen.abnormal_ok(case, om, oi):
+                outcome_hist["outside-domain:" + oi.split(" ")[0]] = outcome_hist.get("outside-domain:" + oi.split(" ")[0], 0) + 1
+                continue
             d = "implementation %s (model: %s)" % (oi, om[:120])
         else:
             d = gen.compare(case, om, oi)
